@@ -8,6 +8,11 @@ props = [json.loads(l) for l in open(V / "properties.jsonl")]
 
 # id -> (category, technique, level text, level note, design ref)
 CHECKS = {
+ "C08": ("model_checking",
+         "TLA+ specification of the combinators with exact integer semantics (Combinators.tla: arrays as C-order integer sequences, dyadic affine / additive-condition / permutation leaves, a builder machine over a shape lattice) model-checked with TLC; every program TLC prints is built from the real classes and all four methods compared bit for bit with TLC's integers",
+         "TLC enumerates every composition the builder machine grows (depth 1 exhaustively in quick, depth 2 = 1.8e5 programs in thorough, plus simulated depth-3 programs) over leaf kinds x shape lattice x every valid axis incl. negative ones x Partial index kinds x mapped/broadcast Vmap x condition axes, and checks DeclaredShapeIsSemantic, RoundTrip, LogDetsOpposite, MergeChainsSame, InvertSwaps on each; each program is an implementation test whose expected outputs, log2-dets and shapes TLC computed from the definitions (like jnp.stack / slice by slice / only the indexed entries). The shape formulas as found at the pinned commit are refuted by TLC (Stack / Vmap negative axes; repaired by fix: commits).",
+         "Leaf parameters are installed exactly (Affine scale replaced by a power-of-two array via eqx.tree_at, as its docstring documents); dyadic float64 arithmetic is exact, so equality is bit-for-bit; log-dets are compared with log2-det * ln 2 to 1e-12.",
+         "DESIGN.md 4.6, 5 (C08)"),
  "C09": ("model_checking",
          "TLA+ specifications of the rank-mask composition, the sequential inverse and the block sign algebra (Masks.tla, BlockMasks.tla) model-checked with TLC over the whole configuration grid; every configuration TLC prints is built for real and its Jacobian patterns / masks compared with TLC's reach sets and mask matrices",
          "The structure is discrete algebra over a finite grid, so TLC decides it exhaustively (dim 1..5 x cond {0,1,2} x width 1..7 x depth 0..3 x params 1..3 in the thorough tier; every block shape <= 3x3, <= 4 blocks, offsets -2..2; block networks to depth 3). Each printed configuration becomes an implementation test whose expected dependency set was computed by TLC; weights are set after construction (all-positive, and random of both signs up to 1e3) so that masks applied only at construction would be exposed.",
@@ -23,6 +28,11 @@ CHECKS = {
          "TLC enumerates every wrapper tree up to 5 (quick) / 7 (thorough) nodes over the five wrapper kinds, containers and vmapped construction, checks ExactlyOnce / InnerFirst for every order the recursion may take and FrozenBitIdentical under arbitrary optimiser steps; each tree is an implementation test (value of unwrap = TLC's term, idempotence, no wrapper left, parameter count of the ravelled constructor = TLC's trainable set) and, for a third of them, a training run of either loop with the counting optimiser, SGD(lr=1e3) or Adam whose digests TLC validates. Real flows with frozen subsets and method transparency (m vs unwrap(m), bit-identical) complete it.",
          "exp, softplus, tanh, where, norm are evaluated with NumPy in float64 when interpreting TLC's term (trusted base). Leaves are identified by value (distinct by construction). WeightNormalization constructed under filter_vmap cannot be built in this environment (equinox 0.13.8) and is excluded from the batched cases.",
          "DESIGN.md 4.4, 5 (C12)"),
+ "C13": ("model_checking",
+         "Constructor validity (Valid) and accepted shapes (SemShape / SemCond) of Combinators.tla model-checked with TLC; for every program TLC prints the real constructor must accept iff Valid, and every wrong shape of a lattice must make all four methods raise; every concrete bijection class (found by introspection) and the distribution methods likewise",
+         "TLC generates valid compositions and the documented incompatibilities (mismatched shapes in Chain / Concatenate / Stack, mismatched condition shapes, a Partial index set that does not fit, a Reshape that changes the element count) with their expected verdicts; the harness then tries, for each program and each real class, every shape NumPy would silently broadcast (scalar, size-1 axis, extra leading/trailing axis, transposed, flattened, one extent off), a missing and a mis-shaped condition on all four methods (about 1.3e4 rejected calls in quick).",
+         "Any exception counts as rejection. Only the incompatibilities the property names are demanded of constructors; index values are kept in range (JAX clamps out-of-range integer indices by design).",
+         "DESIGN.md 4.6, 5 (C13)"),
  "C15": ("model_checking",
          "TLA+ state machine of fit_to_data (FitToData.tla, Batching.tla) model-checked with TLC; recorded event traces of the real fit_to_data validated against Trace_FitToData.tla by TLC; TLC-enumerated helper cases replayed into get_batches/train_val_split",
          "TLC exhausts the data-flow model (every split, every batch choice, symmetric rows, every batch size) for the clauses of C15 as invariants; every recorded execution of the real loop over a grid of (n, batch_size, val_prop, condition, epochs) is accepted or rejected by TLC against the same clauses at every step. Right level: the property is a statement about every history of a loop with state.",
